@@ -11,7 +11,7 @@ from harness.common import Producer, run_schedule, drain, pre_schedule, Pruned
 META = {
     "bounds": {"quick": "schedules of <= 9 steps over {arrival, complete oldest consumer job}, <= 8 arrivals; "
                         "tornado-future and native-coroutine consumers",
-               "thorough": "schedules of <= 12 steps, <= 11 arrivals"},
+               "thorough": "schedules of <= 10 steps, <= 9 arrivals; loop-iteration-granularity schedules of <= 9 steps"},
     "outside": ["several event loops", "pre-emptive threads"],
     "stubs": ["event loop: engine/vloop.py"],
     "granularity": "coarse schedules let the loop run to quiescence after every action; the latest-fine shards step the loop one iteration at a time (arrivals between two iterations)",
@@ -127,14 +127,14 @@ def _fine(shard, *choices):
 
 
 def obligations(tier):
-    steps = 9 if tier == "quick" else 12
-    n = 8 if tier == "quick" else 11
+    steps = 9 if tier == "quick" else 10
+    n = 8 if tier == "quick" else 9
     obls = []
     for native in (False, True):
         obls.append({"name": "latest/steps=%d/%s" % (steps, "native" if native else "future"),
                      "body": "body", "pre": "pre", "shard": {"n": n, "native": native},
                      "types": ["int"] * steps, "budget": 300 if tier == "quick" else 1800})
-    fsteps = 8 if tier == "quick" else 11
+    fsteps = 8 if tier == "quick" else 9
     for consumer in ("instant", "manual"):
         obls.append({"name": "latest-fine/%s/steps=%d" % (consumer, fsteps), "body": "body_fine", "pre": "pre",
                      "shard": {"n": 5 if tier == "quick" else 7, "consumer": consumer},
